@@ -11,13 +11,16 @@ PROP = dict(
               "balances and the slippage value, ApplyDiscount, the oracle-pool SwapOutAmtGivenIn / SwapInAmtGivenOut (external-liquidity resizing, "
               "balancer slippage of the resized trade, value formula with the weight-breaking fee taken from the implementation), "
               "the bonus decision of keeper.UpdatePoolForSwap)",
-        coq_deps=["Base/", "Models/AmmSwap.v", "Proofs/AmmSwapProofs.v", "Proofs/AmmSwapProofs2.v", "Run/AmmSwapRun.v", "Run/ZdecRun.v", "Props/C03.v", "Generated/ArithC03.v", "Proofs/ArithTieTac.v", "Proofs/ArithTieC03.v", "Props/ArithTieC03.v"],
+        coq_deps=["Base/", "Models/AmmSwap.v", "Proofs/AmmSwapProofs.v", "Proofs/AmmSwapProofs2.v", "Proofs/PowBounds.v", "Proofs/PowSeries.v", "Run/AmmSwapRun.v", "Run/ZdecRun.v", "Props/C03.v", "Generated/ArithC03.v", "Proofs/ArithTieTac.v", "Proofs/ArithTieC03.v", "Props/ArithTieC03.v"],
         rule="pure cases on types.Pool values: Pow on bases around every branch boundary (0.5, 1, 2, just below 2, tiny, huge, <= 0) x exponents of every "
              "class (integer 0..100, 1/2, 2.5, w1/w2, tiny); CalcOut/CalcIn with reserves 0, 1, 10^k, per decade 1..1e31, weights equal / integer ratio / "
              "ratio 1/2 and 3/2 / fractional 1..100:1..100, fees 0, 1 ulp, 0.1%..2%, random <= 2%, >= 1 (invalid), accounted balances, amounts 0, 1, dust, "
              "1e-6, 1%, 1/3, 1/2, 2/3, all-1, all, all+1, 10x, 1000x and per decade relative to the reserve; round trip and 1/3-2/3 split on every third "
              "equal-weight zero-fee case; oracle pools: prices 1e-6..1e6, balanced / 3x / 1/4 imbalanced reserves, external-liquidity ratios 1..51, "
-             "snapshot differing from the live pool, accounted balances, missing prices, zero ratio. Application histories (24 quick / 240 thorough "
+             "snapshot differing from the live pool, accounted balances, missing prices, zero ratio; integer-ratio weighted pools (weights n:1 and 1:n, "
+             "n = 2, 3, 4 mostly, up to 100, in the LegacyDec.Power direction of either function; reserves dust / 1e6..1e18 / 1e18..1e31 / the "
+             "boundary of the one-unit corollary +-1 / the fixture's 10e9:30e9; the same relative amounts) checked against the exact-integer "
+             "conclusion of C03_weighted_out_integer_ratio / C03_weighted_in_integer_ratio. Application histories (24 quick / 240 thorough "
              "fresh apps, 4-10 real MsgSwapExactAmountIn/Out each, executed by the amm EndBlocker of FinalizeBlock): fixture pools with reserves "
              "1e4..1e18 and fees 0..2% / 1 ulp, an extra 1:1 pool with reserves 1e17..1e31, an extra oracle pool with ratios 1..50, funded rebalance "
              "treasuries, tier discounts (users hold 9e18 of each token), history 0 = the witness of C03_one_unit_refuted / C03_round_trip_gain_refuted / "
@@ -37,14 +40,20 @@ PROP = dict(
                    "A->B->A returns <= a + 2(B_in+a)(HALF+1)/1e36 (nothing above a below 1e18, refuted above: 2000 -> 3000); split trade gains <= 1 + "
                    "B_out(3HALF+2)/1e36; oracle pools: value out <= value in + 0.5e-18 out-token (exact-in), value in > value out - (0.5+1e-18)e-18 in-token "
                    "(exact-out) for all prices, ratios, slippage amounts, weight-breaking fees in [0,1]; bonus <= treasury balance, only for oracle pools with "
-                   "a positive rate, <= base*rate. Unequal weights: _partial (payout = trunc(B_out*(1-pw)) with pw = the exact model of Pow; its 1e-8 "
-                   "real-analysis bound is not proved). The model (incl. Pow) is evaluated by Coq's VM on every input the real functions were called with "
+                   "a positive rate, <= base*rate. Unequal weights with an INTEGER ratio w_in/w_out = n (Pow = LegacyDec.Power, n-1 rounding multiplications): "
+                   "FULL statement out <= B_out*(1-(B_in/(B_in+a'))^n) + B_out*((2n-1)/2+n*1e-18)*1e-18 against the exact rational power (one unit proved for "
+                   "B_out*((2n-1)e18+2n) <= 2e36, refuted above by a 3:1 witness), exact-out in >= B_in*(z^n*(1-(n-1)/2e18)-1); Pow >= 1 for every exponent on "
+                   "bases in [1,2) (alternating Maclaurin series with non-increasing terms; Newton square root stays in [1,d]), 0 <= Pow <= 1 on bases in [0.5,1], "
+                   "1 <= Pow(y,e) <= y for e in [0,1]. Other unequal weights: _partial (payout = trunc(B_out*(1-pw)) with pw = the exact model of Pow; the 1e-8 "
+                   "real-analysis bound of the fractional series and the whole ln/exp method are not proved). The model (incl. Pow) is evaluated by Coq's VM on every input the real functions were called with "
                    "and must return the same integers and error kind; every app swap must be explained by the pure function on the state before the block.",
         level_note="Trusted: Coq kernel+VM; the Go harness; weight-breaking fee taken from the implementation; precision of Pow for fractional exponents "
                    "checked only by the exact rational reference on generated inputs.",
         assumptions=["equal-weight theorems assume non-negative reserves and fee in [0,1); the one-unit corollaries assume B_out <= 2e18-4 resp. the stated "
                      "bound on B_in and are refuted above it (C03_one_unit_refuted, C03_one_unit_in_refuted, C03_round_trip_gain_refuted)",
                      "C03_weighted_out_partial / C03_weighted_in_partial: bound in terms of any lower bound lb <= pw of the value Pow returns",
+                     "C03_weighted_out_integer_ratio / C03_weighted_in_integer_ratio assume w_in = n*w_out resp. w_out = n*w_in with n >= 1, non-negative "
+                     "reserves and amount, fee in [0,1] resp. [0,1); C03_pow_ge_one / C03_pow_le_one / C03_pow_between_one_and_base do not cover the ln/exp method",
                      "oracle theorems assume 0 <= weight-breaking fee <= 1 (the code caps it at 0.99 and multiplies by a perpetual factor <= 1) and prices >= 0",
                      "C03_split_no_gain / C03_round_trip_no_gain are stated for the pool states named in their hypotheses (second leg on the pool after the "
                      "first leg; the fee skim's own half-unit rounding of the in-reserve is outside the split statement)"],
